@@ -130,7 +130,7 @@ func c12Roundtrip(p vbase.Params, r *vbase.Result) {
 				!proto.Equal(normBatch(back.Commands()), normBatch(blk.Commands())) {
 				fail("block", "fields", "decoded block differs in parent/view/proposer/QC/batch")
 			}
-			if view > 1<<40 {
+			if view >= 1<<32 {
 				// an extreme-view block ends the chain (no higher view possible)
 				break
 			}
@@ -270,7 +270,8 @@ func c12Roundtrip(p vbase.Params, r *vbase.Result) {
 			}
 			h1, v1 := other.Auth.VerifyAggregateQC(a)
 			h2, v2 := other.Auth.VerifyAggregateQC(back)
-			if (v1 == nil) != (v2 == nil) || (v1 == nil && qcStr(h1) != qcStr(h2)) {
+			// ties between equal-view QCs are broken by map order; only the view of the high QC is determined
+			if (v1 == nil) != (v2 == nil) || (v1 == nil && h1.View() != h2.View()) {
 				fail("aggqc", "verdict", fmt.Sprintf("%s: verdict %v/%s before, %v/%s after", tag, v1, qcStr(h1), v2, qcStr(h2)))
 			}
 			r.Obs("verdict_"+errStr(v1), 1)
